@@ -353,12 +353,20 @@ def chain_sizes(name, with_aes):
         enc_kinds = [x.kind for x in o["enc"]]
         dec_kinds = [x.kind for x in o["dec"]]
         c.append((enc_kinds[-1] == "aes") == with_aes)                 # the chain ends in the cipher exactly when asked
-        c.append(dec_kinds == list(reversed(enc_kinds)))               # decoding undoes the stages in reverse order
-        c.append(len(o["dchain"]) == o["nst"] and len(o["dsizes"]) >= o["nst"])   # (entries beyond the chain length are unused)
-        if len(o["dsizes"]) >= o["nst"]:
-            for i in range(o["nst"]):
-                # decoder element i undoes encoder stage nst-1-i and must expect what entered that stage
-                c.append(eng.compare(ast.Eq(), o["dsizes"][i], sizes[o["nst"] - 1 - i]))
+        # which encoder stage each filter went through: a native lzma chain takes all its (size-preserving) filters at once
+        k = len(filters)
+        if enc_kinds[0] == "lzma-chain":
+            nnative = k - (1 if with_aes else 0)
+            stage_of_filter = [0] * nnative + ([1] if with_aes else [])
+        else:
+            stage_of_filter = list(range(k))
+        c.append(len(enc_kinds) == o["nst"] == max(stage_of_filter) + 1)
+        # decoder element i is built for coder i (= filter k-1-i), or for a whole native group starting there; it must expect
+        # what entered that filter's encoder stage (the decoder may split a native group: LZMA1 + BCJ is decoded in two steps)
+        c.append(o["nst"] <= len(o["dchain"]) <= k and len(o["dsizes"]) >= len(o["dchain"]))
+        for i in range(min(len(o["dchain"]), len(o["dsizes"]))):
+            c.append(eng.compare(ast.Eq(), o["dsizes"][i], sizes[stage_of_filter[k - 1 - i]]))
+        c.append((dec_kinds[0] == "aes") == with_aes)                  # decryption comes first when decoding
         if with_aes:
             c.append(o["coders"][0]["method"].tobytes() == b"\x06\xf1\x07\x01")
         return c
